@@ -113,7 +113,9 @@ func (w *World) exec(cs *clientState, idx int, op Op) *Rec {
 	case "sleep":
 		// a client-side pause in simulated time
 		until := s.SimTime() + time.Duration(op.Ms)*time.Millisecond
+		cs.sleepUntil = until
 		s.YieldUntil("client.sleep", func() bool { return s.SimTime() >= until })
+		cs.sleepUntil = 0
 		return nil
 	case "waitcommitted":
 		// wait until the node has resolved everything the client has seen
